@@ -23,6 +23,7 @@ type c09Part struct {
 
 type c09Scenario struct {
 	EnableNoResume bool       `json:"enabled_without_resume"`
+	FirstUnmanaged bool       `json:"first_connection_without_sm,omitempty"` // the first server does not offer stream management: stanzas flow, nothing is enabled
 	Client         ClientOpts `json:"client"`
 	Parts          []c09Part  `json:"parts"`
 	Seg            int        `json:"segmentation"`
@@ -56,6 +57,12 @@ func runC09(e *Engine, g G, o RunOpt) RunInfo {
 		// the library gives up on resumption when the server does not grant it
 		nparts = 1
 	}
+	if !sc.EnableNoResume && g.Pct("first-unmanaged", 12) {
+		sc.FirstUnmanaged = true
+		if nparts < 2 {
+			nparts = 2
+		}
+	}
 	idn := 0
 	for p := 0; p < nparts; p++ {
 		n := 0
@@ -71,7 +78,8 @@ func runC09(e *Engine, g G, o RunOpt) RunInfo {
 		if p > 0 && g.Pct("resume-refused", 30) {
 			part.ResumeReply = "failed"
 		}
-		part.Inbound = GenInbound(g, n, InboundOpts{AllowR: true, AllowA: true, MaxA: 3, AllowIQReq: true, AllowNested: true, AllowSpace: true, AllowEntity: true, IDPrefix: fmt.Sprintf("p%d-", p)})
+		managed := !(sc.FirstUnmanaged && p == 0)
+		part.Inbound = GenInbound(g, n, InboundOpts{AllowR: managed, AllowA: managed, MaxA: 3, AllowIQReq: true, AllowNested: true, AllowSpace: true, AllowEntity: true, IDPrefix: fmt.Sprintf("p%d-", p)})
 		// sprinkle other non-stanza elements
 		for i := range part.Inbound {
 			if !part.Inbound[i].Stanza && part.Inbound[i].Kind == "a" && g.Pct("other", 30) {
@@ -93,7 +101,7 @@ func runC09(e *Engine, g G, o RunOpt) RunInfo {
 		sc.Parts = append(sc.Parts, part)
 	}
 	script := DefaultNeg()
-	script.SM = true
+	script.SM = !sc.FirstUnmanaged
 	if sc.EnableNoResume {
 		script.Enable = EnableNoResume
 	}
@@ -128,8 +136,11 @@ func runC09(e *Engine, g G, o RunOpt) RunInfo {
 			cw.CatchAll()
 		})
 		srv, w = s.Srv, s.W
-		if !ok || !s.Conn.Enabled {
+		if !ok || (!s.Conn.Enabled && !sc.FirstUnmanaged) {
 			return
+		}
+		if sc.FirstUnmanaged {
+			e.Probe("c09.enabled_after_unmanaged_session")
 		}
 		established = true
 		conn := s.Conn
